@@ -25,6 +25,18 @@ theorem reachable_step {c : Cfg} {s s' : St} {e : Ev} (h : Reachable c s) (hs : 
   obtain ⟨es, hr⟩ := h
   exact ⟨es ++ [e], by rw [run_append, hr]; simpa using hs⟩
 
+theorem reachable_run {c : Cfg} : ∀ (es : List Ev) {s s' : St}, Reachable c s → run c s es = some s' →
+    Reachable c s' := by
+  intro es
+  induction es with
+  | nil => intro s s' h hr; simp [run] at hr; subst hr; exact h
+  | cons e es ih =>
+    intro s s' h hr
+    simp only [run] at hr
+    cases hs : step c s e with
+    | none => simp [hs] at hr
+    | some s1 => simp only [hs] at hr; exact ih (reachable_step h hs) hr
+
 theorem processed_le_counter (s : St) (hg : NoGap s) : processed s ≤ s.counter := by
   have := hg.next_le
   unfold processed
